@@ -63,6 +63,7 @@ class MockCA:
             cert_san_override=None, wildcard_field=True, port=0, bind="127.0.0.1", host=None,
             pem_style=None,        # how the certificate chain is written: None (LF, final newline) | "crlf" | "nofinal" | "blank_between" | "text_before"
             unknown_members=False, # every object carries members RFC 8555 does not define (clients must ignore them)
+            detail_style=None,     # (letter, bytes): problem documents carry a long human-readable `detail` made of that letter (any language, any length)
             retry_after=None,      # value of a Retry-After header on the answers to authorization / order polls (RFC 8555 7.5.1)
         )
         self.o.update(o)
@@ -376,6 +377,11 @@ class MockCA:
 
     def _problem(self, typ, status=400, detail=None, nonce=True):
         doc = {"type": ACME_ERR + typ, "detail": detail or ("scripted %s" % typ), "status": status}
+        if self.o["detail_style"]:
+            letter, nbytes = self.o["detail_style"]
+            # an ASCII lead of 0..3 characters that changes with every answer, so that any byte offset falls inside a letter sooner or later
+            lead = "x" * (self.reqno % 4)
+            doc["detail"] = doc["detail"] + ": " + lead + letter * max(1, nbytes // len(letter.encode()))
         return self._json(status, doc, nonce=nonce, ctype="application/problem+json")
 
     def _directory(self):
